@@ -357,6 +357,7 @@ func c09b(c *Ctx, r *Report) {
 
 func c09c(c *Ctx, r *Report) {
 	const clause = "C09.c"
+	c09InsertDecision(c, r, clause)
 	f := c.need(r, clause, "Grammar", "Grammar", "ComputeGotoItemNoneRec")
 	if f == nil {
 		return
